@@ -13,6 +13,7 @@ import (
 	"fmt"
 	"math/big"
 	"net"
+	"sort"
 	"strings"
 	"sync"
 	"time"
@@ -49,6 +50,21 @@ var (
 		":69014", ":4294970774", ":18446744073709555094", ":18446744073709551616", ":55340232221128660197", ":-18446744073709548138", ":00000000000000000000003478"}
 	c17Queries = []string{"", "?", "?transport=udp", "?transport=tcp", "?transport=UDP", "?transport=sctp", "?transport=", "?transport=udp&x=1", "?x=1", "?transport=udp&transport=tcp", "?transport=tcp&transport=udp", "?transport", "?Transport=udp", "?transport=udp&", "?x=1&y=2",
 		"?%zz", "?transport=tcp;x=1", "?transport=tcp&%zz=1", "?foo=1;bar=2", "?transport=udp%", "?%"}
+	// near-misses of the two transport names: the name with something (escaped or not) in front of or behind it, other
+	// spellings and other protocols. RFC 7065 section 3.1 lists exactly "udp" and "tcp"; all of these are unknown.
+	c17NearMissTransports = func() map[string]bool {
+		out := map[string]bool{}
+		for _, name := range []string{"udp", "tcp"} {
+			for _, d := range []string{"+", "%20", "%09", "%0A", "%0D", "%00", ".", "%2C", "s", "4", "6", "%22", "'"} {
+				out["?transport="+name+d] = true
+				out["?transport="+d+name] = true
+			}
+		}
+		for _, o := range []string{"Tcp", "Udp", "TCP", "tls", "dtls", "ud", "tc", "udptcp", "tcp%2Cudp"} {
+			out["?transport="+o] = true
+		}
+		return out
+	}()
 )
 
 // c17Oracle derives the expectation from the generated components (it never
@@ -157,6 +173,12 @@ func c17Oracle(p uriParts) c17Expect {
 		e.Protos = []stun.ProtoType{stun.ProtoTypeUDP, stun.ProtoTypeTCP}
 		ambiguous = true // repeated key / key without value: only "if accepted then a listed transport"
 	default:
+		if c17NearMissTransports[p.Query] {
+			if isStun {
+				return c17Expect{MustReject: true, Why: "stun/stuns with a query"}
+			}
+			return c17Expect{MustReject: true, Why: "unknown transport"}
+		}
 		panic("c17Oracle: unknown query component " + p.Query)
 	}
 	e.MustAccept = !ambiguous
@@ -830,4 +852,13 @@ func init() {
 			}
 		},
 	}
+}
+
+func init() {
+	var qs []string
+	for q := range c17NearMissTransports {
+		qs = append(qs, q)
+	}
+	sort.Strings(qs)
+	c17Queries = append(c17Queries, qs...)
 }
